@@ -12,6 +12,10 @@ SPEC = {
         {"name": "c15na", "pkg": "./zz_verif/c15",
          "run": "^TestC15(_00Selftest|Permutations|ReusePerm|ReuseHash|OneShot|Split2|K12ManyChunks|Histories)$/^(sponge|xof|k12)$/^(TurboSHAKE128|TurboSHAKE256|K12D10|NewDraft10-ctx)$",
          "configs": [c for c in CPU_OFF if c["name"] == "noavx2"], "tiers": ["quick"], "shards": {"quick": 1}},
+        # the portable byte-wise sponge I/O of internal/sha3 is only compiled under -tags appengine on amd64
+        {"name": "c15ae", "pkg": "./zz_verif/c15",
+         "run": "^TestC15(_00Selftest|Permutations|ReusePerm|ReuseHash|OneShot|Split2|K12ManyChunks|Histories)$/^(sponge|xof|k12)$/^(TurboSHAKE128|TurboSHAKE256|K12D10|NewDraft10-ctx)$",
+         "configs": [{"name": "appengine", "tags": ["appengine"]}], "tiers": ["quick"], "shards": {"quick": 1}},
         {"name": "c15k12na", "pkg": "./xof/k12", "run": "^TestZZC15(_00Selftest|Histories|Split2)$", "whitebox": True,
          "configs": [c for c in CPU_OFF if c["name"] == "noavx2"], "tiers": ["quick"], "shards": {"quick": 1}},
         # shared-object concurrency (one ascon.Cipher / one Expander used by 8 goroutines, constructors from 8 goroutines) once more under
